@@ -3,6 +3,8 @@
 package pp
 
 import (
+	"bytes"
+
 	"github.com/ohler55/slip"
 )
 
@@ -30,8 +32,19 @@ func (doc *Doc) reorg(edge int) int {
 
 func (doc *Doc) adjoin(b []byte) []byte {
 	b = append(b, '"')
+	start := len(b)
 	b = slip.AppendDoc(b, doc.text, doc.x+1, doc.x+doc.wide, false, 0)
-
+	// Escape what would end the string or start an escape when read back.
+	if bytes.ContainsAny(b[start:], "\"\\") {
+		text := append([]byte{}, b[start:]...)
+		b = b[:start]
+		for _, c := range text {
+			if c == '"' || c == '\\' {
+				b = append(b, '\\')
+			}
+			b = append(b, c)
+		}
+	}
 	return append(b, '"')
 }
 
